@@ -48,6 +48,14 @@ def check(run, prog, tier):
     run.rule("C07-E", "the tensor-form and the operator-form propagation routine are the same Taylor scheme "
                       "(recogniser of C02 on the two routines whose agreement is claimed)", minimum=8)
     rule_E(run, prog)
+    run.rule("C07-F", "both Redfield tensors are calculated under internal units on every way of initialising them "
+                      "(constructor and deferred initialize())", minimum=2)
+    from . import intunits
+    LS = "quantarhei.qm.liouvillespace."
+    intunits.check_classes(run, prog, "C07-F", [LS + "redfieldtensor.RedfieldRelaxationTensor",
+                                                LS + "tdredfieldtensor.TDRedfieldRelaxationTensor"], 2,
+                           "the bath correlation functions and the time axis are internal: the time-dependent tensor "
+                           "no longer ends at the time-independent one")
 
 
 def rule_E(run, prog):
